@@ -10,11 +10,12 @@ def ip4(n):
     return "0a0000%02x" % n
 
 
-def node_line(port, mode="router", dev="tun", pt=300, ka="-", st=300, claims=None, key=0, trust=(0, 1, 2), algos=CHACHA, nat=0):
+def node_line(port, mode="router", dev="tun", pt=300, ka="-", st=300, claims=None, key=0, trust=(0, 1, 2), algos=CHACHA, nat=0, adv=None):
     if claims is None:
         claims = ["%s/32" % ip4(port)] if dev == "tun" else []
-    return "nnode %d mode=%s dev=%s pt=%d ka=%s st=%d claims=%s key=%d trust=%s algos=%s nat=%d" % (
-        port, mode, dev, pt, ka, st, ",".join(claims) if claims else "-", key, ",".join(map(str, trust)) if trust else "-", algos, nat)
+    return "nnode %d mode=%s dev=%s pt=%d ka=%s st=%d claims=%s key=%d trust=%s algos=%s nat=%d%s" % (
+        port, mode, dev, pt, ka, st, ",".join(claims) if claims else "-", key, ",".join(map(str, trust)) if trust else "-", algos, nat,
+        " adv=%s" % ",".join(adv) if adv else "")
 
 
 def ipv4_packet(src, dst, extra=b""):
@@ -755,3 +756,25 @@ def plain_script(rng, name, kinds, mode="router", dev="tun", seconds=5):
         ops.append("ninject %d %s %s" % (v, rng.choice(["p77", "p78"]), hx(bytes([rng.choice([0, 1, 2, 0xff, 0x10])]) + rng.bytes(rng.below(30)))))
         ops += drain(3)
     return Script(name, ops, {"suite": "node"})
+
+
+def advertised_script(rng, name, seconds=8):
+    """node 1 advertises further addresses of its own (config `advertise-addresses`: another port, an address with and one without port).
+    They are part of its own addresses from the start and again after every periodic reset of the own-address list; peers learn them,
+    pass them on, and third nodes dial them; node 1 itself never dials them, also when they come back in a peer list."""
+    ops = ["nkeys 3 %s" % rng.bytes(6).hex()]
+    ops.append(node_line(1, key=0, ka="1", adv=["p61", "4:c0a80001:3211", "ip4:c0a80002"]))
+    ops.append(node_line(2, key=1, ka="1"))
+    ops.append(node_line(3, key=2, ka="1", adv=["p63"]))
+    ops += ["nexpect own 1 p61", "nexpect own 3 p63"]
+    ops += connect_chain(3)
+    t = 0
+    for _ in range(seconds):
+        t += 1
+        ops += second([1, 2, 3], t) + ["ndrop 0"] * 4
+    ops += ["nexpect mesh 1 2 3", "nexpect notpending 1 p61", "nexpect own 1 p61"]
+    # the periodic reset of the own-address list (every 300 s) keeps the advertised addresses
+    for t in (299, 300, 301, 302, 303):
+        ops += second([1, 2, 3], t) + ["ndrop 0"] * 4
+    ops += ["nexpect own 1 p61", "nexpect own 3 p63", "nexpect notpending 1 p61", "nexpect mesh 1 2 3"]
+    return Script(name, ops, {"suite": "node", "noshrink": True})
